@@ -428,3 +428,149 @@ Section Ota.
       repeat split; congruence.
   Qed.
 End Ota.
+
+(* ================================================================================================================================ *)
+(* attributes in a language WITH extension tokens (Wireless Village): extension tokens are never looked for in attribute
+   values, so the attribute lemmas of the language without its extension table apply, and transfer                               *)
+Definition noext_L (L : lang) : lang :=
+  mk_lang (l_id L) (l_pub_num L) (l_pub_text L) (l_root L) (l_dtd L) (l_tags L) (l_ns L) (l_attrs L) (l_vals L) None.
+Definition noext_lang (l : blang) : blang :=
+  mk_blang (bl_id l) (bl_pub_num l) (bl_pub_text l) (bl_tags l) (bl_attrs l) (bl_vals l) None.
+Definition noext_env (e : env) : env :=
+  mk_env (noext_lang (e_lang e)) (e_use_strtbl e) (e_ignore_empty e) (e_remove_blanks e) (e_version e) (e_anonymous e).
+
+Lemma to_blang_noext L : to_blang (noext_L L) = noext_lang (to_blang L).
+Proof. reflexivity. Qed.
+
+Lemma split_value_true_noext e st buf : split_value e st true buf = split_value (noext_env e) st true buf.
+Proof. reflexivity. Qed.
+
+Lemma abs_attr5_noext e st na a : abs_attr5 e st na a = abs_attr5 (noext_env e) st na a.
+Proof.
+  unfold abs_attr5. assert (AS : abs_attr_start e st a = abs_attr_start (noext_env e) st a) by reflexivity. rewrite <- AS.
+  destruct (abs_attr_start e st a) as [[[start vl] s1]|]; [|reflexivity]. destruct vl as [v|]; [|reflexivity].
+  assert (AV : abs_value5 e s1 true (start_cur_attr start s1) na None v = abs_value5 (noext_env e) s1 true (start_cur_attr start s1) na None v).
+  { unfold abs_value5. destruct v as [|c0 v]; [reflexivity|].
+    assert (SA : abs_special_attr e s1 true (start_cur_attr start s1) na (c0 :: v) = abs_special_attr (noext_env e) s1 true (start_cur_attr start s1) na (c0 :: v)) by reflexivity.
+    rewrite <- SA. destruct (abs_special_attr e s1 true _ na (c0 :: v)) as [[w0|]|]; try reflexivity. }
+  now rewrite AV.
+Qed.
+
+Lemma abs_attrs5_noext e na l : forall st, abs_attrs5 e st na l = abs_attrs5 (noext_env e) st na l.
+Proof.
+  induction l as [|a r IH]; intros st; cbn [abs_attrs5]; [reflexivity|]. rewrite <- abs_attr5_noext.
+  destruct (abs_attr5 e st na a) as [[w s1]|]; [|reflexivity]. now rewrite IH.
+Qed.
+
+(* values without extension items denote the same in both languages *)
+Definition noextv (v : S.wval) : bool :=
+  match v with S.WValStr (S.WExt _ _) => false | _ => true end.
+Definition noexta (a : S.wattr) : bool := forallb noextv (S.wa_vals a).
+
+Lemma den_val_noext L tb v dst : noextv v = true -> S.den_val (S.mk_denv (noext_L L) tb) v dst = S.den_val (S.mk_denv L tb) v dst.
+Proof. destruct v as [sw t|s]; [reflexivity|]. destruct s; try reflexivity. discriminate. Qed.
+
+Lemma den_vals_noext L tb vs : forall dst, forallb noextv vs = true -> S.den_vals (S.mk_denv (noext_L L) tb) vs dst = S.den_vals (S.mk_denv L tb) vs dst.
+Proof.
+  induction vs as [|v r IH]; intros dst H; [reflexivity|]. cbn [forallb] in H. apply andb_true_iff in H as [Hv Hr].
+  cbn [S.den_vals]. rewrite (den_val_noext L tb v dst Hv). destruct (S.den_val (S.mk_denv L tb) v dst) as [[b s1]|]; [|reflexivity]. now rewrite IH.
+Qed.
+
+Lemma den_attrs_noext L tb ws : forall dst, forallb noexta ws = true -> S.den_attrs (S.mk_denv (noext_L L) tb) ws dst = S.den_attrs (S.mk_denv L tb) ws dst.
+Proof.
+  induction ws as [|w r IH]; intros dst H; [reflexivity|]. cbn [forallb] in H. apply andb_true_iff in H as [Hw Hr].
+  cbn [S.den_attrs]. unfold S.den_attr, S.den_attr_raw.
+  assert (DA : S.den_astart (S.mk_denv (noext_L L) tb) (S.wa_start w) dst = S.den_astart (S.mk_denv L tb) (S.wa_start w) dst) by (destruct (S.wa_start w); reflexivity).
+  rewrite DA. destruct (S.den_astart (S.mk_denv L tb) (S.wa_start w) dst) as [[[nm pf] s1]|]; [|reflexivity].
+  rewrite (den_vals_noext L tb _ s1 Hw). cbn [S.de_lang noext_L l_id].
+  destruct (S.den_vals (S.mk_denv L tb) (S.wa_vals w) s1) as [[v s2]|]; [|reflexivity].
+  match goal with |- match ?X with _ => _ end = match ?Y with _ => _ end => replace X with Y by reflexivity end.
+  destruct (match nm with P.AttrTok p t _ => _ | _ => _ end) as [[[n1 v1] s3]|]; [|reflexivity]. now rewrite IH.
+Qed.
+
+(* the attribute values the abstraction produces hold no extension item *)
+Lemma abs_velts_noext l : forall st, forallb (fun v => match v with VExt _ => false | _ => true end) l = true ->
+  forallb noextv (fst (abs_velts st l)) = true.
+Proof.
+  induction l as [|v r IH]; intros st H; cbn [abs_velts]; [reflexivity|].
+  cbn [forallb] in H. apply andb_true_iff in H as [Hv Hr].
+  destruct v as [s|t|p t|off]; try discriminate.
+  - specialize (IH st Hr). destruct (abs_velts st r) as [w' st2]. cbn [fst] in *. rewrite forallb_app, IH. destruct (0 <? len s); reflexivity.
+  - specialize (IH (snd (enc_attr_token st t p)) Hr). destruct (abs_velts _ r) as [w' st2]. cbn [fst] in *. now rewrite forallb_app, IH.
+  - specialize (IH st Hr). destruct (abs_velts st r) as [w' st2]. cbn [fst] in *. now rewrite forallb_app, IH.
+Qed.
+
+Definition notext (v : velt) : bool := match v with VExt _ => false | _ => true end.
+
+Lemma split_sweep_notext find mk : notext mk = true ->
+  forall fuel l l', split_sweep fuel find mk l = Some l' -> forallb notext l = true -> forallb notext l' = true.
+Proof.
+  intros Hm. induction fuel as [|f IH]; intros l l'; cbn [split_sweep]; [discriminate|].
+  destruct l as [|v r]; [intros H; now injection H as <-|].
+  destruct v as [s|t|p t|off]; cbn [forallb notext andb].
+  - destruct (find s) as [[idx mlen]|].
+    + destruct (split_sweep f find mk _) as [r'|] eqn:Sx; [|discriminate]. intros H Hl; injection H as <-.
+      cbn [forallb notext andb]. rewrite Hm. cbn [andb]. apply (IH _ _ Sx).
+      destruct (idx + mlen <? len s); cbn [forallb notext andb]; exact Hl.
+    + destruct (split_sweep f find mk r) as [r'|] eqn:Sx; [|discriminate]. intros H Hl; injection H as <-.
+      cbn [forallb notext andb]. now apply (IH _ _ Sx).
+  - intros _ H. discriminate.
+  - destruct (split_sweep f find mk r) as [r'|] eqn:Sx; [|discriminate]. intros H Hl; injection H as <-.
+    cbn [forallb notext andb]. now apply (IH _ _ Sx).
+  - destruct (split_sweep f find mk r) as [r'|] eqn:Sx; [|discriminate]. intros H Hl; injection H as <-.
+    cbn [forallb notext andb]. now apply (IH _ _ Sx).
+Qed.
+
+Lemma split_value_true_notext e st buf l : split_value e st true buf = Some l -> forallb notext l = true.
+Proof.
+  unfold split_value. cbv zeta. cbn [negb andb].
+  assert (PV : forall rows l0 l1, pass_vals rows l0 = Some l1 -> forallb notext l0 = true -> forallb notext l1 = true).
+  { induction rows as [|r rest IH]; intros l0 l1; cbn [pass_vals]; [intros H; now injection H as <-|].
+    unfold sweep. destruct (split_sweep _ _ _ l0) as [l2|] eqn:Sx; [|discriminate]. intros H Hl.
+    apply (IH _ _ H). eapply split_sweep_notext; [|exact Sx|exact Hl]. reflexivity. }
+  assert (PS : forall tbl l0 l1, pass_strtbl tbl l0 = Some l1 -> forallb notext l0 = true -> forallb notext l1 = true).
+  { induction tbl as [|x rest IH]; intros l0 l1; cbn [pass_strtbl]; [intros H; now injection H as <-|].
+    unfold sweep. destruct (split_sweep _ _ _ l0) as [l2|] eqn:Sx; [|discriminate]. intros H Hl.
+    apply (IH _ _ H). eapply split_sweep_notext; [|exact Sx|exact Hl]. reflexivity. }
+  destruct (match bl_vals (e_lang e) with Some rows => pass_vals rows [VStr buf] | None => Some [VStr buf] end) as [l1|] eqn:E1; [|discriminate].
+  assert (H1 : forallb notext l1 = true).
+  { destruct (bl_vals (e_lang e)) as [rows|]; [exact (PV rows _ _ E1 eq_refl)|injection E1 as <-; reflexivity]. }
+  destruct (e_use_strtbl e && negb (in_cdata st && false)).
+  - intros H. exact (PS _ _ _ H H1).
+  - intros H; injection H as <-. exact H1.
+Qed.
+
+Lemma special_attr_noext e st ia ca na buf w1 : abs_special_attr e st ia ca na buf = Some (Some w1) -> forallb noextv w1 = true.
+Proof.
+  unfold abs_special_attr. cbv zeta. destruct ia; [|discriminate].
+  destruct (bl_id (e_lang e) =? LANG_SI10).
+  - destruct ca as [[p t]|]; [|discriminate]. destruct p; [|discriminate]. destruct ((t =? 10) || (t =? 16)); [|discriminate].
+    destruct (dt_payload _); cbn [option_map]; intros E; [injection E as <-; reflexivity|discriminate].
+  - destruct (bl_id (e_lang e) =? LANG_EMN10).
+    + destruct ca as [[p t]|]; [|discriminate]. destruct p; [|discriminate]. destruct t as [|t]; [discriminate|].
+      repeat (destruct t as [t|t|]; try discriminate).
+      destruct (dt_payload _); cbn [option_map]; intros E; [injection E as <-; reflexivity|discriminate].
+    + destruct (bl_id (e_lang e) =? LANG_OTA_SETTINGS); [|discriminate].
+      destruct ca as [[p t]|]; [|discriminate]. destruct p; [|discriminate]. destruct t as [|t]; [discriminate|].
+      repeat (destruct t as [t|t|]; try discriminate).
+      destruct (enc_ota_icon st na _); [intros E; injection E as <-; reflexivity|discriminate].
+Qed.
+
+Lemma abs_attrs5_noexta e na l : forall st ws st', abs_attrs5 e st na l = Some (ws, st') -> forallb noexta ws = true.
+Proof.
+  induction l as [|a r IH]; intros st ws st'; cbn [abs_attrs5]; [intros E; now injection E as <- _|].
+  destruct (abs_attr5 e st na a) as [[w s1]|] eqn:A; [|discriminate].
+  destruct (abs_attrs5 e s1 na r) as [[ws' s2]|] eqn:R; [|discriminate]. intros E; injection E as <- _.
+  cbn [forallb]. rewrite (IH _ _ _ R), andb_true_r.
+  unfold abs_attr5 in A. destruct (abs_attr_start e st a) as [[[start vl] s0]|]; [|discriminate].
+  destruct vl as [v|]; [|injection A as <- _; reflexivity].
+  destruct (abs_value5 e s0 true _ na None v) as [[w0 s3]|] eqn:AV; [|discriminate]. injection A as <- _.
+  unfold noexta. cbn [S.wa_vals]. unfold abs_value5 in AV. destruct v as [|c0 v]; [injection AV as <- _; reflexivity|].
+  destruct (abs_special_attr e s0 true _ na (c0 :: v)) as [[w1|]|] eqn:SA; try discriminate.
+  - injection AV as <- _. exact (special_attr_noext _ _ _ _ _ _ _ SA).
+  - unfold abs_special_content in AV. cbv zeta in AV. cbn [negb andb] in AV.
+    destruct (split_value e s0 true _) as [l0|] eqn:SV; [|discriminate].
+    unfold the_buffer_of in SV. cbv zeta in SV. cbn [negb andb] in SV.
+    pose proof (abs_velts_noext l0 s0 (split_value_true_notext e s0 _ l0 SV)) as H.
+    destruct (abs_velts s0 l0) as [w2 s4]. injection AV as <- _. exact H.
+Qed.
